@@ -619,9 +619,14 @@ fn main() {
             rep.evaluations += 1;
             rep.class(&format!("{}:{}", c["facet"].as_str().unwrap(), c["endian"].as_str().unwrap()));
             rep.nontrivial(&c.to_string());
+            let before = rep.mismatches;
             let r = guarded(|| run_case(c, &mut rng, &mut rep));
             if let Err(msg) = r {
                 rep.mismatch(&format!("dumpmodel:{}:panic", c["facet"].as_str().unwrap()), json!({"case": c, "panic": msg}));
+            }
+            // one agreeing case per facet as a sample of what was compared
+            if rep.mismatches == before && !rep.samples.iter().any(|x| x["facet"] == c["facet"]) {
+                rep.sample(json!({"facet": c["facet"], "endian": c["endian"], "model": c["m"], "result": "read back equal to the model"}));
             }
         }
     }
